@@ -4,7 +4,7 @@ from __future__ import annotations
 import itertools
 
 import lang
-from chartgen import chart_text, outcome
+from chartgen import chart_text, outcome, wide_chars
 from common import cps, rng
 
 SYMBOLS = ['"', " ", "=", "[", "]", "a", "é", "lyric", "lyric ", "section", "section ", "♪", "{", "0"]
@@ -74,6 +74,14 @@ def run(ctx):
         recs.append(observe_line(f"t{k}", line))
         k += 1
         ctx.evaluations += 1
+    # "non-ASCII text included": every special code point (zero-width and format characters, controls, exotic blanks,
+    # combining marks, look-alikes of the quote, astral planes) and seeded ones from the whole code space, at the start,
+    # in the middle and at the end of a lyric, a section name and a text
+    for c in wide_chars(r, ctx.pick(40, 1500)):
+        for t in (f"lyric {c}", f"lyric a{c}b", f"lyric ab{c}", f"section {c}x", f"section x {c}", f"{c}", f"ev{c}ent", f"x{c}"):
+            recs.append(observe_line(f"t{k}", f'{r.choice(["0", "96", "1000"])} = E "{t}"'))
+            k += 1
+            ctx.evaluations += 1
     # TRACE: seeded whole sections with all kinds interleaved, long values, inner quotes; lists are file-order filters
     for j in range(ctx.pick(300, 6000)):
         n = r.choice([1, 2, 3, 4, 8, 20])
